@@ -78,8 +78,12 @@ def run(res, a):
     cases = []
     peer = {"srv": "cli", "cli": "srv"}
 
-    def add(kind, shared, recv_role, stream, honest, chunks, note):
-        cases.append({"id": "%s%d" % (kind, len(cases)), "line": "dec %s %s %s" % (shared.hex(), recv_role, stream.hex()),
+    def add(kind, shared, recv_role, stream, honest, chunks, note, segs=None):
+        if segs is None:
+            line = "dec %s %s %s" % (shared.hex(), recv_role, stream.hex())
+        else:
+            line = "decs %s %s %s" % (shared.hex(), recv_role, " ".join(x.hex() for x in segs if x))
+        cases.append({"id": "%s%d" % (kind, len(cases)), "line": line, "stream": stream.hex(),
                       "kind": kind, "meta": {"honest": honest.hex(), "chunks": [c.hex() for c in chunks], "note": note}})
 
     for i, (shared, role, msgs, small) in enumerate(streams):
@@ -115,6 +119,20 @@ def run(res, a):
                 sw[k], sw[k + 1] = sw[k + 1], sw[k]
                 add("swap", shared, rr, b"".join(sw), wire, ch, "swap frames %d,%d" % (k, k + 1))
         add("replay", shared, rr, wire + wire, wire, ch, "whole stream twice")
+        # the same alterations delivered frame by frame, each frame in its own reader (as the connection does)
+        add("identity-segs", shared, rr, wire, wire, ch, "unaltered, one reader per frame", segs=fr)
+        add("replay-segs", shared, rr, wire + wire, wire, ch, "whole stream twice, one reader per frame", segs=fr + fr)
+        for k in range(len(fr)):
+            add("replay1-segs", shared, rr, b"".join(fr[:k + 1]) + fr[k], wire, ch, "frame %d replayed right after itself, one reader per frame" % k, segs=fr[:k + 1] + [fr[k]])
+            add("drop-segs", shared, rr, b"".join(fr[:k] + fr[k + 1:]), wire, ch, "drop frame %d, one reader per frame" % k, segs=fr[:k] + fr[k + 1:])
+            forged = b"\x00\x00" + rb(rng, 16)
+            add("forge-empty", shared, rr, b"".join(fr[:k]) + forged + b"".join(fr[k:]), wire, ch, "forged empty frame inserted before frame %d" % k)
+            add("forge-empty-repl", shared, rr, b"".join(fr[:k]) + forged + b"".join(fr[k + 1:]), wire, ch, "frame %d replaced by a forged empty frame" % k)
+            add("forge-empty-segs", shared, rr, b"".join(fr[:k]) + forged + b"".join(fr[k + 1:]), wire, ch, "frame %d replaced by a forged empty frame, one reader per frame" % k, segs=fr[:k] + [forged] + fr[k + 1:])
+            n = rng.choice([1, 2, 16, 17])
+            forged2 = bytes([n, 0]) + rb(rng, n + 16)
+            add("forge-short", shared, rr, b"".join(fr[:k]) + forged2 + b"".join(fr[k:]), wire, ch, "forged %d-byte frame inserted before frame %d" % (n, k))
+        add("forge-empty", shared, rr, wire + b"\x00\x00" + rb(rng, 16), wire, ch, "forged empty frame appended")
         add("reflect", shared, role, wire, b"", [], "the sender's own frames fed back to the sender")
         other = rb(rng, 32)
         add("xsession", other, rr, wire, b"", [], "frames of another session")
@@ -141,7 +159,7 @@ def oracle(c, obs):
     f = dict(t.split("=", 1) for t in obs.split(" ") if "=" in t)
     out = bytes.fromhex(f.get("out", ""))
     st = f.get("st")
-    stream = bytes.fromhex(c["line"].split(" ")[3]) if len(c["line"].split(" ")) > 3 else b""
+    stream = bytes.fromhex(c["stream"]) if "stream" in c else (bytes.fromhex(c["line"].split(" ")[3]) if len(c["line"].split(" ")) > 3 else b"")
     honest = bytes.fromhex(meta["honest"])
     chunks = [bytes.fromhex(x) for x in meta["chunks"]]
     # j = number of complete honest frames that prefix the stream
